@@ -3,6 +3,7 @@ package main
 import (
 	"fmt"
 	"go/token"
+	"strings"
 
 	"golang.org/x/tools/go/ssa"
 )
@@ -167,9 +168,35 @@ func runC03(c *Check, a *Analysis) {
 				})
 			}
 			okE := effect && ls.SameSection(s, effIn, "Conn.mutex")
+			// the sweep's completion must be synchronous: a completion deferred to a
+			// queued closure leaves the critical section (and, with a shared loop
+			// variable, signals the wrong call)
+			deferred := false
+			if tbl == "pending" && val != nil {
+				for _, cs := range computeCompletion(p).sitesIn(fn) {
+					if strings.HasPrefix(cs.What, "closure") && p.varKeyOfBinding(cs.Var) == p.varKey(val) {
+						deferred = true
+					}
+					if strings.HasPrefix(cs.What, "closure") {
+						// a cell that the loop assigns the ranged value to
+						if cell := p.localCell(cs.Var); cell != nil {
+							for _, st := range p.storesToCell(cell) {
+								if p.canon(st) == val {
+									deferred = true
+								}
+							}
+						}
+					}
+				}
+			}
+			if deferred {
+				okE = false
+			}
 			det = ""
 			if !effect {
 				det = "the sweep over Conn." + tbl + " does not complete/stop the entries it visits"
+			} else if deferred {
+				det = "the sweep hands the completion of a pending call to a queued closure: it leaves the critical section, and a closure created in the loop captures the shared iteration variable (Go < 1.22 semantics per go.mod), so callers can be left unsignalled"
 			} else if !okE {
 				det = "the sweep's effect is outside the critical section of shutdown=true"
 			}
